@@ -13,7 +13,10 @@ import (
 	"verif/harness/hx"
 )
 
-func keccak(b []byte) []byte { return crypto.Keccak256(b) }
+// code hashes on op lines come from x/crypto directly, not from the package under test's helper
+func keccak(b []byte) []byte { return refKeccak(b) }
+
+var _ = crypto.Keccak256
 
 type Univ struct {
 	tok, rip common.Address
@@ -43,17 +46,51 @@ func NewUniv(r *hx.Rng) *Univ {
 		a[0] = 0xa0 + byte(i)
 		u.addrs = append(u.addrs, a)
 	}
+	// boundary addresses: leading zero bytes (0x00..01), and one whose balance-slot key (a Keccak image)
+	// starts with a zero byte: found by rejection sampling with the seed (about 256 tries)
+	switch r.Intn(3) {
+	case 0:
+		var a common.Address
+		a[19] = 1
+		u.addrs[2] = a
+	case 1:
+		for tries := 0; tries < 4096; tries++ {
+			var a common.Address
+			copy(a[:], r.Bytes(20))
+			a[0] = 0xa9
+			if refERC20Key(a, 3)[0] == 0 && refERC20Key(a, 4)[0] != 0 || refERC20Key(a, 3)[0] == 0 {
+				u.addrs[3] = a
+				break
+			}
+		}
+	}
 	k32a := make([]byte, 32)
 	k32a[31] = 1
 	k32b := r.Bytes(32)
 	u.keys32 = [][]byte{k32a, k32b}
 	u.keys = [][]byte{{}, []byte("k"), []byte("kk"), k32a, k32b}
+	switch r.Intn(3) { // size boundaries around the 32-byte word, and a key with leading zero bytes
+	case 0:
+		u.keys[2] = r.Bytes(31)
+	case 1:
+		u.keys[2] = r.Bytes(33)
+	default:
+		u.keys[2] = []byte{0, 0, 7}
+	}
 	z32 := make([]byte, 32)
 	v32 := r.Bytes(32)
 	one32 := make([]byte, 32)
 	one32[31] = 1
 	u.vals32 = [][]byte{z32, one32, v32}
 	u.vals = [][]byte{{}, {1}, {0}, r.Bytes(5), z32, v32}
+	switch r.Intn(4) { // leading-zero and 31/33-byte values (a balance slot may be written this way)
+	case 0:
+		u.vals[3] = append([]byte{0, 0}, r.Bytes(2)...)
+	case 1:
+		u.vals[3] = r.Bytes(31)
+	case 2:
+		u.vals[3] = r.Bytes(33)
+	}
 	u.ftkeys = [][]byte{[]byte(common.GenerateFTKey("x")), []byte(common.GenerateFTKey("yy"))}
 	cands := []*big.Int{big.NewInt(0), big.NewInt(1), big.NewInt(2), big.NewInt(255), big.NewInt(256), pow(10, 18),
 		pow(2, 64), new(big.Int).Sub(pow(2, 64), big.NewInt(1)), pow(2, 255), new(big.Int).SetBytes(r.Bytes(9))}
